@@ -8,6 +8,9 @@
     guess_residue_restrains                                          → `guessResidue`
     guess_protein_restrains                                          → `guessProtein`
     Alignment.align_molecules (everything up to the optimiser call)  → `alignPrep`
+    Alignment.align_molecules' unset check (start / end is None)     → `alignMolecules`
+    Molecule.__eq__ / Atom.__eq__        (components/_components.py) → `molEq`, `atomEq`
+    Alignment.start / Alignment.end setters, Alignment.__init__      → `setStart`, `setEnd`, `newAlignment`, `runOps`
 
   Follows the Python line by line: same branches, same order, same index arithmetic; every `raise`
   is an explicit `Except PyErr` value.  Mathlib-free; runs in `gmdriver`.
@@ -222,5 +225,113 @@ def alignPrep (start end_ : Mol P) (restr : Option (List Pair)) (deform : Option
         else .ok (.call swapped
           { fixedPos := mol1Positions, mobilePos := mobile.positions, restr := restrictions,
             deform := deformation, nSteps := stepsFactor * mobile.len })
+
+/-! ### `Alignment.start` / `Alignment.end` setters, and the unset check of `align_molecules`
+
+    `Molecule.__eq__` compares the molecule name, the length and, atom by atom, `Atom.__eq__`
+    (`resname`, `name`, `index`, `top_resid`); nothing else of a molecule matters to the setters,
+    so a molecule is seen through `ident : M → MolId`. -/
+
+/-- what `Atom.__eq__` compares -/
+structure AtomId where
+  resname : PStr
+  name : PStr
+  index : Int
+  topResid : Int
+  deriving DecidableEq, Repr
+
+/-- what `Molecule.__eq__` compares -/
+structure MolId where
+  name : PStr
+  atoms : List AtomId
+  deriving DecidableEq, Repr
+
+/-- `Atom.__eq__(self, atom)` for two `Atom`s -/
+def atomEq (self atom : AtomId) : Bool :=
+  self.resname == atom.resname && self.name == atom.name &&
+  self.index == atom.index && self.topResid == atom.topResid
+
+/-- `for at1, at2 in zip(self, molecule): if at1 != at2: return False` … `return True` -/
+def molEqLoop : List (AtomId × AtomId) → Bool
+  | [] => true
+  | (at1, at2) :: rest => if !atomEq at1 at2 then false else molEqLoop rest
+
+/-- `Molecule.__eq__(self, molecule)` for a `Molecule` argument -/
+def molEq (self molecule : MolId) : Bool :=
+  if molecule.name == self.name && molecule.atoms.length == self.atoms.length then
+    molEqLoop (self.atoms.zip molecule.atoms)
+  else false
+
+/-- the value assigned to `alignment.start` / `alignment.end` -/
+inductive SetArg (M : Type) where
+  /-- `None` -/
+  | none
+  /-- not an instance of `Molecule` -/
+  | nonMolecule
+  | mol (m : M)
+
+/-- `Alignment._start`, `Alignment._end` -/
+structure AliState (M : Type) where
+  start : Option M
+  end_ : Option M
+
+/-- `Alignment.start.setter`.  (The comparison is with the CURRENT START molecule, as in the code.)
+    An exception leaves the object unchanged: every `raise` comes before the assignment. -/
+def setStart {M : Type} (ident : M → MolId) (st : AliState M) : SetArg M → Except PyErr (AliState M)
+  | .none => .ok { st with start := none }
+  | .nonMolecule => .error .typeError
+  | .mol molecule =>
+    match st.end_, st.start with
+    | some _, some cur =>
+      if molEq (ident molecule) (ident cur) then .ok { st with start := some molecule }
+      else .error .valueError
+    | _, _ => .ok { st with start := some molecule }
+
+/-- `Alignment.end.setter` (compares with the current end molecule) -/
+def setEnd {M : Type} (ident : M → MolId) (st : AliState M) : SetArg M → Except PyErr (AliState M)
+  | .none => .ok { st with end_ := none }
+  | .nonMolecule => .error .typeError
+  | .mol molecule =>
+    match st.start, st.end_ with
+    | some _, some cur =>
+      if molEq (ident molecule) (ident cur) then .ok { st with end_ := some molecule }
+      else .error .valueError
+    | _, _ => .ok { st with end_ := some molecule }
+
+/-- `Alignment.__init__(start, end)`: `self._start = self._end = None; self.start = start; self.end = end` -/
+def newAlignment {M : Type} (ident : M → MolId) (start end_ : SetArg M) : Except PyErr (AliState M) :=
+  match setStart ident ⟨none, none⟩ start with
+  | .error e => .error e
+  | .ok st => setEnd ident st end_
+
+/-- one assignment in a history of an `Alignment` object -/
+inductive SetOp (M : Type) where
+  | start (a : SetArg M)
+  | end_ (a : SetArg M)
+
+def applyOp {M : Type} (ident : M → MolId) (st : AliState M) : SetOp M → Except PyErr (AliState M)
+  | .start a => setStart ident st a
+  | .end_ a => setEnd ident st a
+
+/-- a history of assignments, each in its own `try`: a refused assignment leaves the object as it
+    was; the outcome (`none` = accepted) of every assignment is recorded -/
+def runOps {M : Type} (ident : M → MolId) : AliState M → List (SetOp M) → AliState M × List (Option PyErr)
+  | st, [] => (st, [])
+  | st, op :: rest =>
+    match applyOp ident st op with
+    | .error e =>
+      let r := runOps ident st rest
+      (r.1, some e :: r.2)
+    | .ok st' =>
+      let r := runOps ident st' rest
+      (r.1, none :: r.2)
+
+/-- `Alignment.align_molecules` from the object's state:
+    `if self.start is None or self.end is None: raise ValueError(…)`, then `alignPrep` -/
+def alignMolecules (st : AliState (Mol P)) (restr : Option (List Pair)) (deform : Option (List Int))
+    (ignoreH : Bool) (autoGuess : Bool := true) : Except PyErr (PrepOut P) :=
+  match st.start, st.end_ with
+  | some start, some end_ => alignPrep start end_ restr deform ignoreH autoGuess
+  | _, _ => .error .valueError
 
 end Restr
